@@ -17,7 +17,9 @@ together with the shared variables: five binary semaphores (`1` = taken; OpenMP 
 by a thread other than the acquirer), `readcount`, `writecount`, `FFT_LEN` (`flen`, `-1` = never initialised) and the
 length `tab` the tables are currently built for (`4 * LSX_FFT_BR[0]`).  Ghosts: `gw`/`gr` (the reader group holds `w` / the
 writer group holds `r`), `nInit`, `nReset`, `nStore` (how often the initialiser was entered, `FFT_LEN = 0` was stored, the
-tables were re-allocated), and the multisets `pend`/`wtl` of the thread-local `len` of the threads at `b0`/`wt`.
+tables were re-allocated), and the multisets `pend`/`wtl` of the thread-local `len` of the threads at `b0`/`wt` (`pend` also
+keeps the thread-local `old_n == 0`: `int old_n = FFT_LEN` is read together with the re-test, BEFORE the store, and decides
+after the store whether `LSX_FFT_BR[0] = 0` marks the tables empty).
 
 A thread's `len` is otherwise not tracked (it is chosen afresh at each test): an over-approximation, exact for safety.
 One `Label` = one atomic step of one thread; `fire l s` is the executable step function the driver `soxr_conc` runs against
@@ -153,8 +155,8 @@ structure St where
   /-- length the tables are built for (`4 * LSX_FFT_BR[0]`, 0 while there are none) -/
   tab : Int
   (gw gr nInit nReset nStore : Nat)
-  /-- `len` of the threads at `b0` -/
-  pend : List Int
+  /-- (`len`, `old_n == 0`) of the threads at `b0` -/
+  pend : List (Int × Bool)
   /-- `len` of the threads at `wt` -/
   wtl : List Int
 
@@ -205,7 +207,7 @@ inductive Label where
   | w5
   | c1_pass (len : Int)
   | c1_fail
-  | store (len : Int)
+  | store (len : Int) (z : Bool)
   | build (len : Int)
   | y1
   | y2
@@ -272,7 +274,7 @@ def Label.src : Label → Pc
   | .w5 => .w5
   | .c1_pass _ => .c1
   | .c1_fail => .c1
-  | .store _ => .b0
+  | .store _ _ => .b0
   | .build _ => .wt
   | .y1 => .y1
   | .y2 => .y2
@@ -338,7 +340,7 @@ def Label.dst : Label → Pc
   | .w5 => .c1
   | .c1_pass _ => .b0
   | .c1_fail => .d1
-  | .store _ => .wt
+  | .store _ _ => .wt
   | .build _ => .y1
   | .y1 => .y2
   | .y2 => .y3
@@ -428,7 +430,7 @@ def guardX (l : Label) (s : St) : Prop :=
   | .w5 => s.w = 0
   | .c1_pass len => s.flen < len
   | .c1_fail => 0 < s.flen
-  | .store len => len ∈ s.pend
+  | .store len z => (len, z) ∈ s.pend
   | .build len => len ∈ s.wtl
   | .y2 => s.m2 = 0
   | .y3_last => s.writecount = 1
@@ -485,7 +487,7 @@ instance (l : Label) (s : St) : Decidable (guardX l s) :=
   | .w5 => inferInstanceAs (Decidable (s.w = 0))
   | .c1_pass len => inferInstanceAs (Decidable (s.flen < len))
   | .c1_fail => inferInstanceAs (Decidable (0 < s.flen))
-  | .store len => inferInstanceAs (Decidable (len ∈ s.pend))
+  | .store len z => inferInstanceAs (Decidable ((len, z) ∈ s.pend))
   | .build len => inferInstanceAs (Decidable (len ∈ s.wtl))
   | .y1 => inferInstanceAs (Decidable (True))
   | .y2 => inferInstanceAs (Decidable (s.m2 = 0))
@@ -545,8 +547,8 @@ def effX (l : Label) (s : St) : St :=
   | .w3 => { s with r := 1, gr := 1 }
   | .w4 => { s with m2 := 0 }
   | .w5 => { s with w := 1 }
-  | .c1_pass len => { s with pend := len :: s.pend }
-  | .store len => { s with flen := len, tab := if s.flen = 0 then 0 else s.tab, pend := s.pend.erase len, wtl := len :: s.wtl, nStore := s.nStore + 1 }
+  | .c1_pass len => { s with pend := (len, decide (s.flen = 0)) :: s.pend }
+  | .store len z => { s with flen := len, tab := if z then 0 else s.tab, pend := s.pend.erase (len, z), wtl := len :: s.wtl, nStore := s.nStore + 1 }
   | .build len => { s with tab := if s.tab < len then len else s.tab, wtl := s.wtl.erase len }
   | .y1 => { s with w := 0 }
   | .y2 => { s with m2 := 1 }
@@ -689,11 +691,11 @@ def St.compact (s : St) : St :=
 
 /-- all labels, with a given parameter for the three that carry `len` (used by the driver to look labels up by
     source point / visible action) -/
-def allLabels (len : Int) : List Label :=
+def allLabels (len : Int) (z : Bool := false) : List Label :=
   [.call, .i0_warm, .i0_cold, .ini1, .ini2, .ini3, .ini4, .ini5, .ini6, .r1,
    .r2, .r3, .r4_first, .r4_more, .r5, .r6, .r7, .r8, .c0_ok, .c0_grow,
    .rd_end, .x1, .x2_last, .x2_more, .x3, .x4, .u1, .u2_last, .u2_more, .u3,
-   .u4, .w1, .w2_first, .w2_more, .w3, .w4, .w5, .c1_pass len, .c1_fail, .store len,
+   .u4, .w1, .w2_first, .w2_more, .w3, .w4, .w5, .c1_pass len, .c1_fail, .store len z,
    .build len, .y1, .y2, .y3_last, .y3_more, .y4, .y5, .d1, .d2, .d3_last,
    .d3_more, .d4, .d5, .e1, .e2, .e3, .e4_first, .e4_more, .e5, .e6,
    .e7, .e8, .c2_go]
